@@ -1,5 +1,5 @@
 """Spec functions for the server side (dispatcher), from the statements of C01-C03, C12, C15."""
-from spec.prims import (class_is, ev_callee, ev_kind, ev_outcome, ev_value, is_absent, is_json, member, same, tlen,
+from spec.prims import (class_is, ev_args, ev_callee, ev_kind, ev_outcome, ev_value, is_absent, is_json, member, same, tlen,
                         uf, ufv)
 from spec.jsonrpc import id_ok
 
@@ -50,6 +50,8 @@ def method_returned(d, name, params, n0, value):
 
 def method_failed(d, name, params, n0, exc):
     """C03: the protocol error produced for each failure class"""
+    if not (isinstance(exc.code, int) and not isinstance(exc.code, bool) and isinstance(exc.message, str)):
+        return False
     m = registered(d, name)
     if m is None:
         # unknown name: -32601, nothing executed (C15)
@@ -66,3 +68,17 @@ def method_failed(d, name, params, n0, exc):
     # any other exception: the constant ServerError() - nothing of x can leak into a constant
     return (class_is(exc, ServerError) and same(exc.code, -32000) and same(exc.message, 'Server error')
             and exc.data is UNSET)
+
+
+def handlers_for(d, key):
+    """the error handlers registered under key (None = generic), as a sequence"""
+    hs = member(d._error_handlers, key)
+    return () if is_absent(hs) else hs
+
+
+def handler_event_ok(i, h, request, context, prev):
+    """C12: event number i is a call of handler h with the request, the context and the error returned
+    by the previous handler, and it returned (handlers do not raise)"""
+    a = ev_args(i)
+    return (ev_kind(i) == 'call' and same(ev_callee(i), h) and ev_outcome(i) == 'ret'
+            and len(a) == 3 and same(a[0], request) and same(a[1], context) and same(a[2], prev))
